@@ -6,6 +6,7 @@ import (
 	"fmt"
 	"sort"
 	"strings"
+	"sync"
 
 	"github.com/ohler55/slip"
 )
@@ -14,6 +15,12 @@ import (
 // is added or removed while the user is interacting with a Completer instance
 // the lo, hi, and index could become offset.
 var completerWords []string
+
+// wordsMu protects completerWords and modifiedVars. The hooks that change
+// them are called from any routine that sets or defines something. A slice
+// that has been assigned to completerWords is never changed again so a
+// caller of WordMatch can keep using the slice returned.
+var wordsMu sync.Mutex
 
 // Completer provides completion choices given a partial word. Words are
 // stored in a slice in sorted order to optimize not only the search for a
@@ -53,6 +60,8 @@ func (c *Completer) Init() {
 }
 
 func setHook(p *slip.Package, key string) {
+	wordsMu.Lock()
+	defer wordsMu.Unlock()
 	if p == &Pkg ||
 		strings.HasPrefix(key, "*print-") ||
 		key == "*bag-time-format*" ||
@@ -64,10 +73,14 @@ func setHook(p *slip.Package, key string) {
 }
 
 func unsetHook(p *slip.Package, key string) {
+	wordsMu.Lock()
+	defer wordsMu.Unlock()
 	removeWord(key)
 }
 
 func addHook(p *slip.Package, key string) {
+	wordsMu.Lock()
+	defer wordsMu.Unlock()
 	addWord(key)
 }
 
@@ -75,6 +88,13 @@ func addHook(p *slip.Package, key string) {
 // words is returned along with the low and high indices into the word slice
 // for matches that begin with the provided word.
 func WordMatch(word string) (words []string, lo, hi int) {
+	wordsMu.Lock()
+	defer wordsMu.Unlock()
+	return wordMatch(word)
+}
+
+// wordMatch is WordMatch for callers that hold wordsMu.
+func wordMatch(word string) (words []string, lo, hi int) {
 	if len(completerWords) == 0 {
 		initWords()
 	}
@@ -128,16 +148,20 @@ func addWord(word string) {
 		initWords()
 	}
 	word = strings.ToLower(word)
-	words, _, _ := WordMatch(word)
+	words, _, _ := wordMatch(word)
 	if words == nil {
-		completerWords = append(completerWords, word)
-		sort.Strings(completerWords)
+		// Copy on write, the previous slice might be in use.
+		nw := make([]string, len(completerWords), len(completerWords)+1)
+		copy(nw, completerWords)
+		nw = append(nw, word)
+		sort.Strings(nw)
+		completerWords = nw
 	}
 }
 
 func removeWord(word string) {
 	word = strings.ToLower(word)
-	if words, lo, hi := WordMatch(word); words != nil {
+	if words, lo, hi := wordMatch(word); words != nil {
 		for ; lo <= hi; lo++ {
 			if words[lo] == word {
 				break
@@ -147,9 +171,9 @@ func removeWord(word string) {
 			// Not in words.
 			return
 		}
-		if lo < len(completerWords)-1 {
-			copy(completerWords[lo:], completerWords[lo+1:])
-		}
-		completerWords = completerWords[:len(completerWords)-1]
+		// Copy on write, the previous slice might be in use.
+		nw := make([]string, 0, len(completerWords)-1)
+		nw = append(nw, completerWords[:lo]...)
+		completerWords = append(nw, completerWords[lo+1:]...)
 	}
 }
